@@ -10,11 +10,11 @@ From Coq Require Import NArith List Bool.
 From V Require Import Base.U64 Ssz.SszCore Beacon.Config Beacon.Schemas Beacon.State Beacon.Spec.Helpers Beacon.Spec.Epoch
   Beacon.Spec.Transition Beacon.Proofs.TransitionRules Beacon.Proofs.C08Theorems.
 From V Require Import Beacon.Impl.Flat Beacon.Impl.Registry Beacon.Impl.Justification Beacon.Impl.Final Beacon.Impl.Slashings
-  Beacon.Impl.AltairAttester.
+  Beacon.Impl.AltairAttester Beacon.Impl.Phase0Attester.
 From V Require Import Beacon.Refine.ListLemmas Beacon.Refine.RegistryRefine Beacon.Refine.RegistryWitness
   Beacon.Refine.JustificationRefine Beacon.Refine.FinalRefine Beacon.Refine.SlashingsRefine Beacon.Refine.EpochCompose
   Beacon.Refine.AltairDomain Beacon.Refine.AltairRefine Beacon.Refine.AltairCheck Beacon.Refine.AltairWitness
-  Beacon.Refine.Fixtures.
+  Beacon.Refine.Phase0Refine Beacon.Refine.Phase0Check Beacon.Refine.Phase0Witness Beacon.Refine.Fixtures.
 Import ListNotations.
 Local Open Scope N_scope.
 
@@ -253,6 +253,75 @@ Theorem C02_altair_rewards_refines_checked_partial : forall (E : Env) (f : fork)
 Proof. exact altair_rewards_refines_checked. Qed.
 Print Assumptions C02_altair_rewards_refines_checked_partial.
 
+(* ================= phase0: attester statuses, stakes, attestation deltas =================
+   Go: phase0.ComputeEpochAttesterData (AttesterStatus flags / earliest inclusion per validator, built by one pass over the
+   pending attestations with the epochs context's committees), phase0.AttestationRewardsAndPenalties (one loop over the
+   validators, five Deltas), phase0.ProcessEpochRewardsAndPenalties.  `committee_of` is epc.GetBeaconCommittee.
+   P0Hyps: current epoch >= 1; epc epochs and total active stake = the spec's; SLOTS_PER_EPOCH, SLOTS_PER_HISTORICAL_ROOT <> 0
+   and the block-roots vector full; the spec's own range assertion for the two epoch start slots; every pending attestation
+   is AttOk (committee_of = get_beacon_committee, bits as long as the committee, members and proposer index inside the
+   registry, slot inside the block-roots range, inclusion delay <> 0: all enforced by process_attestation); balances as long
+   as the registry; increment <> 0; sum of all effective balances < 2^64.
+   P0Bounds: PROPOSER_REWARD_QUOTIENT, INACTIVITY_PENALTY_QUOTIENT <> 0; eff*BASE_REWARD_FACTOR, base*(all effective/inc),
+   eff*finality_delay < 2^64; balance + summed rewards and summed penalties of every validator < 2^64. *)
+Theorem C02_phase0_attester_data_refines : forall (E : Env) (st : BeaconState) (committee_of : N -> N -> option (list N)) (epc : EpcView),
+  P0Hyps E st committee_of epc ->
+  exists ad,
+    compute_epoch_attester_data0 (cfg E) committee_of epc (flatten_validators (validators st)) st = Some ad /\
+    p0_prev_epoch ad = get_previous_epoch E st /\ p0_cur_epoch ad = get_current_epoch E st /\
+    p0_flats ad = flatten_validators (validators st) /\
+    p0_statuses ad = statuses_of E st (flatten_validators (validators st)) /\
+    p0_prev_source_stake ad = N.max (EFFECTIVE_BALANCE_INCREMENT (cfg E))
+      (sel_sum0 st (fun i => f_ps E st i && un st i) 0 (length (validators st))) /\
+    p0_prev_target_stake ad = N.max (EFFECTIVE_BALANCE_INCREMENT (cfg E))
+      (sel_sum0 st (fun i => f_ps E st i && un st i && f_pt E st i) 0 (length (validators st))) /\
+    p0_prev_head_stake ad = N.max (EFFECTIVE_BALANCE_INCREMENT (cfg E))
+      (sel_sum0 st (fun i => f_ps E st i && un st i && f_pt E st i && f_ph E st i) 0 (length (validators st))) /\
+    p0_cur_target_stake ad = N.max (EFFECTIVE_BALANCE_INCREMENT (cfg E))
+      (sel_sum0 st (fun i => f_ct E st i && un st i) 0 (length (validators st))).
+Proof. exact phase0_attester_data_refines. Qed.
+Print Assumptions C02_phase0_attester_data_refines.
+(* those four stakes are the spec's attesting balances (the inputs of justification and of the rewards) *)
+Theorem C02_phase0_stakes_spec : forall (E : Env) (st : BeaconState) (committee_of : N -> N -> option (list N)) (epc : EpcView)
+    (ad : Phase0AttesterData),
+  P0Hyps E st committee_of epc ->
+  p0_prev_source_stake ad = N.max (EFFECTIVE_BALANCE_INCREMENT (cfg E))
+    (sel_sum0 st (fun i => f_ps E st i && un st i) 0 (length (validators st))) ->
+  p0_prev_target_stake ad = N.max (EFFECTIVE_BALANCE_INCREMENT (cfg E))
+    (sel_sum0 st (fun i => f_ps E st i && un st i && f_pt E st i) 0 (length (validators st))) ->
+  p0_prev_head_stake ad = N.max (EFFECTIVE_BALANCE_INCREMENT (cfg E))
+    (sel_sum0 st (fun i => f_ps E st i && un st i && f_pt E st i && f_ph E st i) 0 (length (validators st))) ->
+  p0_cur_target_stake ad = N.max (EFFECTIVE_BALANCE_INCREMENT (cfg E))
+    (sel_sum0 st (fun i => f_ct E st i && un st i) 0 (length (validators st))) ->
+  match get_matching_source_attestations E st (get_previous_epoch E st) with Some a => get_attesting_balance E st a | None => None end
+    = Some (p0_prev_source_stake ad) /\
+  match get_matching_target_attestations E st (get_previous_epoch E st) with Some a => get_attesting_balance E st a | None => None end
+    = Some (p0_prev_target_stake ad) /\
+  match get_matching_head_attestations E st (get_previous_epoch E st) with Some a => get_attesting_balance E st a | None => None end
+    = Some (p0_prev_head_stake ad) /\
+  match get_matching_target_attestations E st (get_current_epoch E st) with Some a => get_attesting_balance E st a | None => None end
+    = Some (p0_cur_target_stake ad).
+Proof. exact phase0_stakes_spec. Qed.
+Print Assumptions C02_phase0_stakes_spec.
+Theorem C02_phase0_rewards_refines : forall (E : Env) (st : BeaconState) (committee_of : N -> N -> option (list N)) (epc : EpcView),
+  P0Hyps E st committee_of epc ->
+  P0Bounds E st ->
+  N.of_nat (length (validators st)) < max64 ->
+  cp_epoch (finalized_checkpoint st) <= get_previous_epoch E st ->
+  exists ad,
+    compute_epoch_attester_data0 (cfg E) committee_of epc (flatten_validators (validators st)) st = Some ad /\
+    process_epoch_rewards_and_penalties0 (cfg E) epc ad st = Epoch.process_rewards_and_penalties E Phase0 st.
+Proof. exact phase0_rewards_refines. Qed.
+Print Assumptions C02_phase0_rewards_refines.
+(* the same from decidable hypotheses *)
+Theorem C02_phase0_rewards_refines_checked : forall (E : Env) (st : BeaconState) (committee_of : N -> N -> option (list N)) (epc : EpcView),
+  p0_rewards_hypsb E st committee_of epc = true ->
+  exists ad,
+    compute_epoch_attester_data0 (cfg E) committee_of epc (flatten_validators (validators st)) st = Some ad /\
+    process_epoch_rewards_and_penalties0 (cfg E) epc ad st = Epoch.process_rewards_and_penalties E Phase0 st.
+Proof. exact phase0_rewards_refines_checked. Qed.
+Print Assumptions C02_phase0_rewards_refines_checked.
+
 (* ================= defects of the pinned snapshot (fixed in /repo) and the open finding ================= *)
 (* exit-queue churn counted exits of earlier epochs (fix d9811fa): exits at 7 and 8, activation-exit epoch 5, churn
    limit 2 => the original scan reports (8,2), sends the ejected validator to epoch 9; spec and repaired code: 8 *)
@@ -321,3 +390,13 @@ Example C02_altair_nonvacuous :
   option_map balances (Epoch.process_rewards_and_penalties E Altair w_ok) = Some [32000000000; 30998465585; 29995468163; 16997511401] /\
   option_map inactivity_scores (Epoch.process_inactivity_updates E w_ok) = Some [0; 8; 44; 1004].
 Proof. exact altair_nonvacuous. Qed.
+Example C02_phase0_nonvacuous :
+  let E := tiny_env in
+  p0_rewards_hypsb E w_p0 (get_beacon_committee E w_p0) (fresh_epc E w_p0) = true /\
+  is_in_inactivity_leak E w_p0 = true /\
+  option_map (fun x => map (fun s => (as_inclusion_delay s, as_attested_proposer s, flags_byte (as_flags s))) (p0_statuses x))
+    (compute_epoch_attester_data0 tiny_cfg (get_beacon_committee E w_p0) (fresh_epc E w_p0) (flatten_validators (validators w_p0)) w_p0)
+  = Some [ (1, 6, 255); (2, 0, 203); (1, 1, 135); (1, 4, 193); (0, max64, 192); (0, max64, 192); (0, max64, 192); (0, max64, 192) ] /\
+  option_map balances (Epoch.process_rewards_and_penalties E Phase0 w_p0)
+  = Some [32000130639; 31997452527; 29993034739; 16997776595; 31992879454; 0; 31992940691; 31992810052].
+Proof. exact phase0_nonvacuous. Qed.
